@@ -15,6 +15,7 @@ Classes provided by this module:
 # - ReprStructure   - RecordStructure + columns. Described by 'fmt'
 
 
+import weakref
 from typing import Iterator
 from numbers import Number
 from collections import defaultdict
@@ -2031,8 +2032,10 @@ class PPEnumFieldType(FieldType):
             (len(str(x)) for x in self.enum_values if x is not None),
             default=1)
 
-        # {syntax_names_id: {fmt_modifier: {enum_val: (text, align)}}}
-        self._cache = {}
+        # {field_palette: {fmt_modifier: {enum_val: (text, align)}}}
+        # (keys are palette objects, not their id()'s: id of a discarded palette
+        # can be reused by a new one, and the cached colors would be wrong)
+        self._cache = weakref.WeakKeyDictionary()
 
         self._cache_lengths = {
             fmt_modifier: {}
@@ -2050,7 +2053,7 @@ class PPEnumFieldType(FieldType):
     ) -> ([CHText.Chunk], int):
         """value -> desired text and alignment"""
 
-        cache_key = id(field_palette)  # need to maintain separate caches
+        cache_key = field_palette  # need to maintain separate caches
                             # enum_value -> CTHText for different palettes
         # prepare and cache cell text for a enum value
         # cache is prepared for all supported format modifiers
